@@ -871,7 +871,7 @@ class Skeleton:
             for item, label, owners in self.mods[path]['chunks']:
                 if isinstance(item, Item):
                     text = strip_sentinels(item.text)
-                    lab = label or item.label or item.header_re
+                    lab = label or item.label or re.sub(r'\s+', ' ', re.sub(r'[\\^$()]|pub(\(crate\))? |\b(fn|struct|enum|impl|trait|const) ', '', item.header_re)).strip(' <{:(')
                     own = dict(item.owners)
                     if owners:
                         own.setdefault('*', owners)
@@ -915,5 +915,7 @@ def fn_spans(text):
             e = match_close(text, b) if text[b] == '{' else b
         except (Lost, IndexError):
             continue
-        out.append((text.count('\n', 0, k), text.count('\n', 0, e), m.group(1), text[b] == '{'))
+        pre = text[max(0, k - 200):k]
+        ext = bool(re.search(r'#\[verifier::external_body\]\s*((pub(\([a-z]+\))?\s+)?(const\s+)?(unsafe\s+)?)$', pre))
+        out.append((text.count('\n', 0, k), text.count('\n', 0, e), m.group(1), text[b] == '{' and not ext))
     return out
